@@ -13,12 +13,14 @@ _OPS = "ONE fully CONCRETE code string ({shape}); " + _CHK
 _K = lambda h, bound, t, **kw: dict(crate="kinterp", harness="c04::" + h, bounded=True, bound=bound, timeout=t, mem_gb=12, **kw)
 _KANI = [
     # quick tier: the shape that separates "JUMPDEST hidden in push data" from a real one, with the two opcodes adjacent to
-    # the PUSH range as real instructions (112 s on the idle machine, 400-500 s at load average 50)
+    # the PUSH range as real instructions (112 s on the idle machine, 400-500 s at load average 50); shape_eof_imm_quick: 417 s at load 20
     _K("shape_push1_data", _SHAPE.format(shape="PUSH0 DUP1 PUSH1 d JUMPDEST, L = 5"), 1200),
     # quick tier: two EOF-only opcodes that carry immediates in EOF containers (RJUMP: 2 bytes, RJUMPV: 1) are ONE byte long
     # in legacy code -- the JUMPDESTs directly behind them are destinations (independent seed C04-1)
     _K("shape_eof_imm_quick", _OPS.format(shape="RJUMP JD JD RJUMPV JD JD, L = 6"), 1200),
     # thorough tier
+    _K("shape_eof_imm_all", _OPS.format(shape="the 11 EOF-only opcodes with immediates 0xD1 0xE0 0xE1 0xE2 0xE3 0xE5 0xE6 0xE7 0xE8 0xEC 0xEE, "
+                                              "each followed by two JUMPDESTs, L = 33"), 3600, thorough_only=True),  # 2478 s at load 25
     _K("table_len0", _ALL.format(n=0), 900, thorough_only=True),                                               # 149 s
     _K("shape_trunc_push32", _SHAPE.format(shape="JUMPDEST PUSH32 truncated by the end of code, L = 2"), 1200, thorough_only=True),  # 345-589 s
     _K("shape_trunc_push31", _SHAPE.format(shape="JUMPDEST PUSH31 truncated, L = 2"), 1200, thorough_only=True),   # 438 s
@@ -53,7 +55,9 @@ PROP = dict(
                "original_len <= padded length) is a PRECONDITION of the proof.  It is established by analysis::to_analysed/analyze, a "
                "raw-pointer loop outside Verus, ONLY under the BOUNDED Kani check (kinterp c04::*: all contents only for the EMPTY "
                "code; beyond that seven code shapes with concrete opcode positions -- PUSH1/PUSH2/PUSH32 followed by JUMPDEST, "
-               "PUSH1/PUSH2/PUSH31/PUSH32 truncated by the end of the code -- and all immediate-data bytes symbolic) -- reported "
+               "PUSH1/PUSH2/PUSH31/PUSH32 truncated by the end of the code -- and all immediate-data bytes symbolic; plus concrete strings "
+               "placing the 11 EOF-only opcodes that carry immediates in EOF containers (and PUSH0, DUP1) directly before JUMPDESTs; the "
+               "other 210 non-PUSH byte values are NOT exercised as opcodes: 2-4 min of CBMC per opcode) -- reported "
                "under bounded_obligations, never counted as proved; for every other code it rests on the uniformity of the loop, not "
                "on a proof.  The intended bound (all byte strings of length <= 5) is NOT reachable: L = 1 needs > 13 min, L = 2 "
                "exhausts 12 GB (bitvec's pointer<->integer casts under a symbolic walk).  JumpTable::is_valid itself (`pc < len && bits[pc]`) is NOT verified by Verus: "
